@@ -41,14 +41,18 @@ pub fn judge_simc(reference: &Outcome, r: &ChildResult) -> Option<(&'static str,
             }
             let expected = base64::engine::general_purpose::STANDARD.encode(bytes);
             let out = String::from_utf8_lossy(&r.stdout);
-            let tokens: Vec<&str> = out.split_whitespace().filter(|t| !t.ends_with(':')).collect();
-            if tokens.len() != 1 || tokens[0] != expected {
+            // The statement: simc "prints the base64 of exactly the library's commit encoding".
+            // Judged: that string must appear on stdout as one whole whitespace-delimited token.
+            // Labels and any additional output are not judged (a changed label or an extra
+            // informational line does not falsify the statement).
+            let tokens: Vec<&str> = out.split_whitespace().collect();
+            if !tokens.iter().any(|t| *t == expected) {
                 return Some((
                     "STDOUT",
                     format!(
-                        "expected single token {} found {:?}",
+                        "the library's commit encoding {} is not on stdout; tokens found: {:?}",
                         short(&expected),
-                        tokens.iter().map(|t| short(t)).collect::<Vec<_>>()
+                        tokens.iter().filter(|t| !t.ends_with(':')).map(|t| short(t)).collect::<Vec<_>>()
                     ),
                 ));
             }
